@@ -85,9 +85,15 @@ func date(t *rt.Thread, c *rt.GoCont) (rt.Cont, error) {
 		}
 	default:
 		{
+			// The result is at least as long as the literal text of the
+			// format, which is up to the program.
+			t.RequireBytes(len(format))
 			dateStr, fmtErr := strftime.StrictFormat(format, now)
 			if fmtErr != nil {
 				return nil, fmtErr
+			}
+			if len(dateStr) > len(format) {
+				t.RequireBytes(len(dateStr) - len(format))
 			}
 			date = rt.StringValue(dateStr)
 		}
